@@ -1,6 +1,7 @@
 package props
 
 import (
+	"bytes"
 	"context"
 	"fmt"
 	"sort"
@@ -25,14 +26,20 @@ type C14RPC struct {
 }
 
 type C14Case struct {
-	Rounds [][]C14RPC `json:"rounds"` // each round: RPCs in flight together, then quiesce
-	Ser    bool       `json:"ser"`
+	// ErrKind: the error value the failing transport returns (kit.FaultErrKinds)
+	ErrKind string     `json:"err_kind,omitempty"`
+	Rounds  [][]C14RPC `json:"rounds"` // each round: RPCs in flight together, then quiesce
+	Ser     bool       `json:"ser"`
 }
 
-var c14Outcomes = []string{"ok", "ok", "herr", "cancel", "cancel-unread", "deadline", "reset", "openfail"}
+var c14Outcomes = []string{"ok", "ok", "herr", "cancel", "cancel-unread", "cancel-send", "deadline", "reset", "openfail"}
+
+// c14ParkMarker is the payload of the message whose transport write is parked when the "cancel-send" outcome cancels
+var c14ParkMarker = []byte{0xEE, 0x14, 0xEE}
 
 func genC14(t *rapid.T) C14Case {
 	c := C14Case{Ser: rapid.Bool().Draw(t, "ser")}
+	c.ErrKind = rapid.SampledFrom(kit.FaultErrKinds).Draw(t, "err_kind")
 	nr := rapid.IntRange(1, 6).Draw(t, "rounds")
 	for r := 0; r < nr; r++ {
 		n := rapid.SampledFrom([]int{1, 4, 8, 16, 32}).Draw(t, "batchclass")
@@ -44,6 +51,9 @@ func genC14(t *rapid.T) C14Case {
 				x.Outcome = "herr"
 			}
 			if x.Outcome == "cancel-unread" && x.Kind != kit.KindServer && x.Kind != kit.KindBidi {
+				x.Outcome = "cancel"
+			}
+			if x.Outcome == "cancel-send" && x.Kind != kit.KindClient && x.Kind != kit.KindBidi {
 				x.Outcome = "cancel"
 			}
 			round = append(round, x)
@@ -71,6 +81,7 @@ func creationSites(stacks []string) []string {
 }
 
 func execC14(t *testing.T, c C14Case) (v Verdict) {
+	defer kit.UseFaultKind(c.ErrKind)()
 	total := 0
 	outcomes := map[string]bool{}
 	bigRound := false
@@ -164,6 +175,8 @@ func execC14(t *testing.T, c C14Case) (v Verdict) {
 			}
 			return false
 		})
+		// "cancel-send": a message with the marker payload parks inside the transport write until its context ends
+		l.A.Hold(func(r *kit.Rpc) bool { return bytes.Equal(unwrapBytes(r.GetBody().GetData()), c14ParkMarker) })
 		kit.Settle()
 		// warm-up: one successful RPC of each kind, so that anything the connection starts lazily
 		// and keeps for its lifetime belongs to the idle level it must return to
@@ -213,7 +226,7 @@ func execC14(t *testing.T, c C14Case) (v Verdict) {
 						_, _ = kit.Invoke(ctx, cc, name, []byte("x"))
 						return
 					}
-					name := map[string]string{"ok": "s-ok", "herr": "s-herr", "cancel": "s-wait", "cancel-unread": "s-sendwait", "deadline": "s-wait", "reset": "s-early", "openfail": "s-ok"}[x.Outcome]
+					name := map[string]string{"ok": "s-ok", "herr": "s-herr", "cancel": "s-wait", "cancel-unread": "s-sendwait", "cancel-send": "s-wait", "deadline": "s-wait", "reset": "s-early", "openfail": "s-ok"}[x.Outcome]
 					if x.Outcome == "openfail" {
 						ctx = metadataOutgoing(ctx, "failopen", "1")
 					}
@@ -237,6 +250,11 @@ func execC14(t *testing.T, c C14Case) (v Verdict) {
 						cancel()
 					case "cancel":
 						cancel()
+					case "cancel-send":
+						// the cancellation lands while this send is parked in the transport write (virtual time
+						// only moves once everything is parked)
+						go func() { time.Sleep(time.Millisecond); cancel() }()
+						_ = kit.SendBytes(cs, c14ParkMarker)
 					case "deadline":
 					default:
 						_ = cs.CloseSend()
